@@ -425,7 +425,7 @@ func c17ExecM(text string) string {
 	switch mode {
 	case "seq":
 		ds := mkds()
-		dsP, dsQ := c17Wrap(ds, fP), c17Wrap(ds, fQ)
+		dsP, dsQ := c17Wrap(c17NewPool(), ds, fP), c17Wrap(c17NewPool(), ds, fQ)
 		resP, e := run(dsP, "P")
 		if e != "" {
 			return e
@@ -449,7 +449,7 @@ func c17ExecM(text string) string {
 		return out
 	default:
 		var j report.DataSource = report.NewJoinDatasource(report.NewListMultiDatasource(
-			[]report.DataSource{c17Wrap(mkds(), fP), c17Wrap(mkds(), fQ)}), report.InnerJoin)
+			[]report.DataSource{c17Wrap(c17NewPool(), mkds(), fP), c17Wrap(c17NewPool(), mkds(), fQ)}), report.InnerJoin)
 		res1, e := run(j, "J")
 		if e != "" {
 			return e
